@@ -141,10 +141,11 @@ XRefs(st) == {<<st.inodes[k].own.xattr, st.inodes[k].ino>> : k \in {j \in UsedIx
 
 SingleOwner(st) ==
     LET cl == st.claims IN
-    /\ \A k \in 1..(Len(cl) - 1) :
-         /\ cl[k][2] < cl[k + 1][1]
-         /\ \/ ClOf(st, cl[k][2]) < ClOf(st, cl[k + 1][1])
-            \/ cl[k][3] = cl[k + 1][3] /\ cl[k][3] # 0
+    /\ \/ Feature(st, "shared_blocks")     \* the read-only feature that declares blocks shared between inodes
+       \/ \A k \in 1..(Len(cl) - 1) :
+            /\ cl[k][2] < cl[k + 1][1]
+            /\ \/ ClOf(st, cl[k][2]) < ClOf(st, cl[k + 1][1])
+               \/ cl[k][3] = cl[k + 1][3] /\ cl[k][3] # 0
     /\ \A k \in UsedIx(st) :
          LET o == st.inodes[k].own IN AdjDisjoint(o.data) /\ AdjDisjoint(o.index) /\ AdjDisjoint(o.ind)
     /\ XRefs(st) = UNION {{<<x.blk, r>> : r \in Rng(x.referrers)} : x \in {y \in Rng(st.xblocks) : y.blk \in XUsed(st)}}
@@ -274,13 +275,13 @@ Shapes(st) ==
     /\ st.journal.err = <<>>
     /\ st.orphans.err = <<>> /\ st.orphans.file.err = <<>>
     /\ st.mmp.err = <<>>
-    /\ ~st.sb.needs_recovery
-    /\ st.sb.valid /\ ~st.sb.error_fs
+    /\ \A q \in Rng(st.quota) : q.err = <<>>
 
 Csums(st) ==
     /\ st.sb.csum_ok
     /\ \A k \in DOMAIN st.gd : st.gd[k].csum_ok /\ st.gd[k].bbcsum_ok /\ st.gd[k].ibcsum_ok
     /\ \A k \in UsedIx(st) : st.inodes[k].csum_ok /\ st.inodes[k].csum_err = <<>>
+    /\ st.free_inode_csum_err = <<>>          \* initialised but unused inodes carry a checksum too
     /\ \A d \in DOMAIN st.dirs : st.dirs[d].csum_err = <<>>
     /\ \A x \in Rng(st.xblocks) : x.blk \in XUsed(st) => x.csum_ok
     /\ st.journal.csum_ok
